@@ -19,6 +19,7 @@ type Clause struct {
 	Line int
 	Tag  string // optional label: "ensures[name] ..."
 	Slow bool   // thorough-only
+	Assumed bool // "ensures assumed e": used by callers, not proved for the body
 }
 
 type LoopSpec struct {
@@ -213,11 +214,19 @@ func loadContracts(path string) (*PkgContracts, error) {
 			slow = true
 			src = strings.TrimSpace(src[5:])
 		}
+		assumed := false
+		if strings.HasPrefix(src, "assumed ") {
+			// an ensures clause that callers may rely on but that is not proved for the body (a definition
+			// by an uninterpreted function, typically); listed as an assumption
+			assumed = true
+			src = strings.TrimSpace(src[8:])
+			pc.Assumptions = append(pc.Assumptions, fmt.Sprintf("assumed clause (%s:%d): %s", path, l.line, src))
+		}
 		e, err := parseCE(src)
 		if err != nil {
 			return nil, fail(l, "%v", err)
 		}
-		return &Clause{Expr: e, Src: src, Line: l.line, Tag: tag, Slow: slow}, nil
+		return &Clause{Expr: e, Src: src, Line: l.line, Tag: tag, Slow: slow, Assumed: assumed}, nil
 	}
 	parseSplit := func(l lline, rest string) (*SplitHint, error) {
 		i := strings.LastIndex(rest, " in ")
